@@ -11,8 +11,10 @@ STATIC_MODULES = ["SAV.sql.LimitRun"]
 RULE = (
     "small-scope exhaustive block: 8 dialect configurations (default, sqlite, mysql, pg, mssql with/without "
     "OFFSET-FETCH, oracle with/without OFFSET-FETCH) x {plain, DISTINCT} ordered query x {no limit, "
-    "limit int/expression in {0,2,beyond}, fetch int/expression in {0,2} x {plain, WITH TIES, PERCENT}} x "
-    "{no offset, offset int/expression in {0,1,beyond}}; plus random cases over 10 query shapes (desc, "
+    "limit int in {0,2,beyond} / expression, fetch int in {0,2} / expression x {plain, WITH TIES, PERCENT}} x "
+    "{no offset, offset int in {0,1,beyond} / expression} (thorough: all values also as expressions); plus "
+    "compound selects (UNION / UNION ALL .. ORDER BY, dialect code + 10); correlated scalar subqueries with "
+    "limit/offset (oracle only, no model); random cases over 10 query shapes (desc, "
     "join, DISTINCT, DISTINCT join, GROUP BY, subquery, non-total order for WITH TIES, no ORDER BY) on "
     "random small tables with limit/offset values relative to the result length (0, 1, len-1, len, "
     "len+k); plus cache histories: 2-3 statements of one structure with different limit/offset values (a "
@@ -44,6 +46,7 @@ ASSUMPTIONS = [
 ]
 ANCHORS = [
     ("lib/sqlalchemy/sql/compiler.py", "SQLCompiler._row_limit_clause"),
+    ("lib/sqlalchemy/sql/compiler.py", "SQLCompiler.visit_compound_select"),
     ("lib/sqlalchemy/sql/compiler.py", "SQLCompiler.limit_clause"),
     ("lib/sqlalchemy/sql/compiler.py", "SQLCompiler.fetch_clause"),
     ("lib/sqlalchemy/sql/selectable.py", "GenerativeSelect._simple_int_clause"),
@@ -350,6 +353,7 @@ def translate(repo, outdir):
 # =====================================================================================================
 DIALECTS = 8  # 0 default 1 sqlite 2 mysql 3 pg 4 mssql<2012 5 mssql>=2012 6 oracle<12c 7 oracle>=12c
 Q_PLAIN, Q_DESC, Q_JOIN, Q_DISTINCT, Q_DISTINCT2, Q_GROUP, Q_SUBQ, Q_DISTINCT_JOIN, Q_TIES, Q_UNORDERED = range(10)
+Q_UNION, Q_UNION_ALL = 10, 11  # compound selects: dialect code + 10 in the case input
 
 
 def _reference(qid, t_rows, u_rows):
@@ -379,6 +383,10 @@ def _reference(qid, t_rows, u_rows):
         return sorted([x, i] for i, x, g in T), 0, 1, 1
     if qid == Q_UNORDERED:
         return [], 0, 0, 0
+    if qid == Q_UNION:
+        return sorted([v] for v in {x for i, x, g in T} | {tid for ui, tid in U}), 0, 1, 1
+    if qid == Q_UNION_ALL:
+        return sorted([v] for v in [x for i, x, g in T] + [tid for ui, tid in U]), 0, 1, 1
     raise ValueError(qid)
 
 
@@ -423,19 +431,24 @@ D0 = (
 )
 
 
-def _lim_specs(vals, fvals):
+def _lim_specs(vals, fvals, evals=None, efvals=None):
+    """no limit; limit int in vals / expression in evals; fetch int in fvals / expression in efvals,
+    each plain, WITH TIES, PERCENT"""
+    evals = vals if evals is None else evals
+    efvals = fvals if efvals is None else efvals
     out = [[]]
-    for s in (1, 0):
-        for v in vals:
+    for s, vs, fs in ((1, vals, fvals), (0, evals, efvals)):
+        for v in vs:
             out.append([0, s, v])
-        for v in fvals:
+        for v in fs:
             for pc, ti in ((0, 0), (0, 1), (1, 0)):
                 out.append([1, s, v, pc, ti])
     return out
 
 
-def _off_specs(vals):
-    return [[]] + [[s, v] for s in (1, 0) for v in vals]
+def _off_specs(vals, evals=None):
+    evals = vals if evals is None else evals
+    return [[]] + [[1, v] for v in vals] + [[0, v] for v in evals]
 
 
 def gen_cases(rng, tier):
@@ -443,11 +456,12 @@ def gen_cases(rng, tier):
     # ---- small-scope exhaustive block
     for d in range(DIALECTS):
         for qid in (Q_PLAIN, Q_DISTINCT):
-            for lim in _lim_specs([0, 2, 9], [0, 2]):
-                for off in _off_specs([0, 1, 9]):
+            full = tier == "thorough"
+            for lim in _lim_specs([0, 2, 9], [0, 2], None if full else [2], None if full else [2]):
+                for off in _off_specs([0, 1, 9], None if full else [1]):
                     cases.append({"in": _mk(d, lim, off, qid, rng.randint(0, 1), D0[0], D0[1]), "kind": "exhaustive"})
     # ---- random block
-    nrand = 12000 if tier == "thorough" else 1400
+    nrand = 12000 if tier == "thorough" else 1200
     ndata = 60 if tier == "thorough" else 12
     datasets = [_dataset(rng) for _ in range(ndata)]
     for _ in range(nrand):
@@ -476,8 +490,25 @@ def gen_cases(rng, tier):
         if qid == Q_UNORDERED:
             kind = "unordered"
         cases.append({"in": _mk(d, lim, off, qid, rng.randint(0, 1), t, u), "kind": kind})
+    # ---- compound selects (UNION / UNION ALL ... ORDER BY): dialect code + 10
+    for d in range(DIALECTS):
+        for qid in (Q_UNION, Q_UNION_ALL):
+            for lim in _lim_specs([0, 2, 9], [2], [2], [2]):
+                for off in _off_specs([0, 1, 9], [1]):
+                    if rng.random() < (1.0 if tier == "thorough" else 0.5):
+                        t, u = D0 if rng.random() < 0.5 else rng.choice(datasets)
+                        cases.append({"in": _mk(d + 10, lim, off, qid, rng.randint(0, 1), t, u), "kind": "compound"})
+    # ---- a limited ordered select used as a correlated scalar subquery (oracle only, no model):
+    #      per outer row, the value is the first row of the slice of ITS correlated ordered rows
+    for _ in range(400 if tier == "thorough" else 60):
+        t, u = rng.choice(datasets + [D0])
+        d = rng.choice([0, 1, 2, 3, 4, 4])
+        lim = [] if rng.random() < 0.2 else [0, rng.randint(0, 1), rng.choice([0, 1, 1, 2])]
+        off = [] if (rng.random() < 0.3 and lim) else [rng.randint(0, 1), rng.choice([0, 1, 2])]
+        tp, up = _pack(t, u)
+        cases.append({"in": [200, d, lim, off, [tp, up]], "kind": "correlated-subquery", "model": False})
     # ---- cache histories: statements of ONE structure, different values, through one compiled cache
-    nhist = 2500 if tier == "thorough" else 420
+    nhist = 2500 if tier == "thorough" else 320
     for k in range(nhist):
         t, u = (D0 if k % 3 == 0 else rng.choice(datasets))
         d = k % DIALECTS if k < 5 * DIALECTS else rng.choice([4, 6, 6, 1, rng.randrange(DIALECTS)])
@@ -496,6 +527,10 @@ def gen_cases(rng, tier):
             if ti:
                 qid = Q_TIES
                 pre, distinct, nkey, ordered = _reference(qid, t, u)
+        if rng.random() < 0.12 and not (shape and shape[0] == 1 and shape[3]):
+            qid = rng.choice([Q_UNION, Q_UNION_ALL])  # compound statements go through the cache too
+            d = d % 10 + 10
+            pre, distinct, nkey, ordered = _reference(qid, t, u)
         oshape = None if (rng.random() < 0.25 and shape is not None) else [rng.randint(0, 1)]
         nsteps = rng.randint(2, 3)
         zero_at = rng.randrange(nsteps + 1)  # a step whose values are 0 (first / later / never)
@@ -520,6 +555,10 @@ def _is_hist(inp):
     return inp[0] == 100
 
 
+def _is_corr(inp):
+    return inp[0] == 200
+
+
 def _step_inputs(inp):
     """a history as the list of single-statement inputs it consists of"""
     _, d, steps, ordered, distinct, nkey, pre, impl_part = inp
@@ -527,6 +566,8 @@ def _step_inputs(inp):
 
 
 def nontrivial(c):
+    if _is_corr(c["in"]):
+        return bool(c["in"][4][1])
     if _is_hist(c["in"]):
         return any(nontrivial({"in": x}) for x in _step_inputs(c["in"]))
     d, lim, off, ordered, distinct, nkey, pre, _ = c["in"]
@@ -642,6 +683,10 @@ def _base(qid):
         return sa.select(t.c.x, t.c.id).order_by(t.c.x)
     if qid == Q_UNORDERED:
         return sa.select(t.c.x, t.c.id)
+    if qid == Q_UNION:
+        return sa.union(sa.select(t.c.x), sa.select(u.c.tid)).order_by("x")
+    if qid == Q_UNION_ALL:
+        return sa.union_all(sa.select(t.c.x), sa.select(u.c.tid)).order_by("x")
     raise ValueError(qid)
 
 
@@ -1027,6 +1072,7 @@ def _impl_history(inp):
     from sqlalchemy import exc
 
     _, d, steps, ordered, distinct, nkey, pre, (qid, ek, tp, up) = inp
+    d = d % 10
     t_rows, u_rows = _unpack(tp, up)
     conn = _conn(t_rows, u_rows)
     dialect = _S["named"][d]
@@ -1049,12 +1095,37 @@ def _impl_history(inp):
     return out
 
 
+def _impl_correlated(inp):
+    """[[t.id, value or 0 for NULL], ...] of
+         SELECT t.id, (SELECT u.id FROM u WHERE u.tid = t.id ORDER BY u.id LIMIT l OFFSET o) FROM t ORDER BY t.id
+    as rendered by the dialect; [[-2]] when the rendered text is not SQLite syntax"""
+    sa = _S["sa"]
+    _, d, lim, off, (tp, up) = inp
+    t_rows, u_rows = _unpack(tp, up)
+    conn = _conn(t_rows, u_rows)
+    t, u = _S["t"], _S["u"]
+    inner = _apply(sa.select(u.c.id).where(u.c.tid == t.c.id).order_by(u.c.id), lim, off, 2)
+    stmt = sa.select(t.c.id, inner.scalar_subquery().label("v")).order_by(t.c.id)
+    if d == 1:
+        rows = conn.execute(stmt)
+    else:
+        sql = _sql(stmt, _S["dialects"][d])
+        if " TOP " in sql or " ROWS" in sql or "LIMIT ALL" in sql or "18446744073709551615" in sql:
+            return [[-2]]
+        rows = conn.exec_driver_sql(sql)
+    return [[r[0], 0 if r[1] is None else int(r[1])] for r in rows]
+
+
 def impl(c):
     from sqlalchemy import exc
 
     if _is_hist(c["in"]):
         return _impl_history(c["in"])
+    if _is_corr(c["in"]):
+        return _impl_correlated(c["in"])
     d, lim, off, ordered, distinct, nkey, pre, (qid, ek, tp, up) = c["in"]
+    compound = d >= 10
+    d = d % 10
     t_rows, u_rows = _unpack(tp, up)
     facts = _S["facts"]
     conn = _conn(t_rows, u_rows)
@@ -1077,7 +1148,8 @@ def impl(c):
         msg = str(e)
         code = 1 if "requires an order_by" in msg else 2 if "needs TOP" in msg else 3
         return [[8, code], []]
-    tr = compiler.translate_select_structure(stmt) if d >= 4 else stmt
+    # (a CompoundSelect never reaches translate_select_structure: visit_compound_select does not call it)
+    tr = compiler.translate_select_structure(stmt) if d >= 4 and not compound else stmt
     if tr is not stmt:
         if d in (4, 5):
             plan, rows = _mssql_wrapper(tr, conn, base)
@@ -1127,7 +1199,25 @@ def _slice_spec(inp):
     return _with_ties(r, n, nkey) if ti else r[:n]
 
 
+def _oracle_correlated(inp, obs):
+    _, d, lim, off, (tp, up) = inp
+    if obs == [[-2]]:
+        return None  # the form cannot be executed here
+    t_rows, u_rows = _unpack(tp, up)
+    want = []
+    for i, x, g in sorted(t_rows):
+        us = sorted(j for j, tid in u_rows if tid == i)[(off[1] if off else 0):]
+        if lim:
+            us = us[: lim[2]]
+        want.append([i, us[0] if us else 0])
+    if obs != want:
+        return "correlated scalar subquery (limit %s offset %s) gave %s per outer row, the first row of each outer row's own slice is %s" % (lim, off, obs, want)
+    return None
+
+
 def oracle(c, obs):
+    if _is_corr(c["in"]):
+        return _oracle_correlated(c["in"], obs)
     if _is_hist(c["in"]):
         # every execution of the history must return the slice for ITS OWN values
         for k, (inp, ob) in enumerate(zip(_step_inputs(c["in"]), obs)):
@@ -1154,8 +1244,15 @@ def oracle(c, obs):
 
 
 def match_finding(c, what):
+    if _is_corr(c["in"]):
+        return "C18-mssql-rownumber-correlation-lost" if c["in"][1] == 4 else None
     inp = _step_inputs(c["in"])[0] if _is_hist(c["in"]) else c["in"]
     d, lim, off, ordered, distinct, nkey, pre, _ = inp
+    if d >= 10:
+        # compound select on MSSQL / legacy Oracle and the statement came out without any limiting clause
+        if d - 10 in (4, 5, 6) and "form [0] returned" in what:
+            return "C18-compound-limit-dropped"
+        return None
     if d == 4 and distinct and len({tuple(r) for r in pre}) < len(pre) and "wrapper form [6" in what:
         return "C18-mssql-rownumber-inside-distinct"
     return None
